@@ -122,13 +122,21 @@ impl Writer {
             need,
             *cur + need
         );
+        // With SyncEach an entry is acknowledged only once it is durable: flush before the
+        // offset moves, and withdraw an entry whose flush failed, so that an append that
+        // returns an error is never readable.
+        if let FsyncSchedule::SyncEach = self.fsync_schedule {
+            if let Err(e) = block.mmap.flush() {
+                let _ = block.zero_range(*cur, PREFIX_META_SIZE as u64);
+                return Err(e);
+            }
+        }
         *cur += need;
 
         // Handle fsync based on schedule
         match self.fsync_schedule {
             FsyncSchedule::SyncEach => {
-                // Immediate mmap flush, skip background flusher
-                block.mmap.flush()?;
+                // Flushed above, skip background flusher
                 debug_print!(
                     "[writer] immediate fsync: col={}, block_id={}",
                     self.col,
